@@ -43,7 +43,8 @@ def run_op(convs, op, live=None):
 
     tag, arg = op
     if tag == 0:
-        return curies.chain(convs, **qprops.flags(case_sensitive=bool(arg)))
+        # Sequence[Converter]: a list or a tuple
+        return curies.chain(convs if len(convs) % 2 else tuple(convs), **qprops.flags(case_sensitive=bool(arg)))
     if tag == 1:
         return convs[0].get_subconverter(live if live is not None else list(arg))
     m = live if live is not None else dict(map(tuple, arg))
@@ -169,7 +170,7 @@ class C09(DerivePlugin):
     def generate(self, rng, n):
         for _ in range(n):
             if rng.random() < 0.7:
-                inputs = overlapping_converters(rng, rng.choice([1, 1, 2, 2, 3, 4]))
+                inputs = overlapping_converters(rng, rng.choice([0, 1, 1, 2, 2, 3, 4, 4]))      # chain([]) raises ValueError
                 op = [0, int(rng.random() < 0.6)]
                 strs, pairs = self.probes(rng, inputs)
             else:
